@@ -204,6 +204,29 @@ type SiteIn struct {
 // pkgs restricts the scan to packages with one of the given short paths (nil = all).
 func (w *World) AllSites(m M, hint string, pkgs []string) []SiteIn {
 	var out []SiteIn
+	hasIdent := func(body ast.Node, names map[string]bool) bool {
+		found := false
+		ast.Inspect(body, func(n ast.Node) bool {
+			if id, ok := n.(*ast.Ident); ok && names[id.Name] {
+				found = true
+			}
+			return !found
+		})
+		return found
+	}
+	// a helper that did not exist when the rule tables were written is read in place of its calls: a function that
+	// calls such a helper is searched when the helper mentions the hint (two levels)
+	want := map[string]bool{hint: true}
+	if hint != "" && len(w.Vocab[FunctionsKey]) > 0 {
+		for round := 0; round < 2; round++ {
+			for _, fn := range w.P.Funcs() {
+				if fn.Decl.Body != nil && !w.knownFunc(fn.Name) && hasIdent(fn.Decl.Body, want) {
+					want[fn.Decl.Name.Name] = true
+				}
+			}
+		}
+	}
+	var units []*Unit
 	for _, fn := range w.P.Funcs() {
 		if fn.Decl.Body == nil {
 			continue
@@ -211,20 +234,24 @@ func (w *World) AllSites(m M, hint string, pkgs []string) []SiteIn {
 		if pkgs != nil && !contains(pkgs, load.ShortPkg(fn.Pkg.PkgPath)) {
 			continue
 		}
-		if hint != "" {
-			found := false
-			ast.Inspect(fn.Decl.Body, func(n ast.Node) bool {
-				if id, ok := n.(*ast.Ident); ok && id.Name == hint {
-					found = true
-				}
-				return !found
-			})
-			if !found {
-				continue
-			}
+		if hint != "" && !hasIdent(fn.Decl.Body, want) {
+			continue
 		}
 		u, err := w.Unit(fn.Name)
 		if err != nil {
+			continue
+		}
+		units = append(units, u)
+	}
+	// the sites of a helper read in place of its calls are the caller's: the helper's own unit is not listed again
+	spliced := map[*ast.FuncDecl]bool{}
+	for _, u := range units {
+		for _, ic := range u.G.Inlined {
+			spliced[ic.Orig] = true
+		}
+	}
+	for _, u := range units {
+		if spliced[u.Fn.Decl] {
 			continue
 		}
 		for _, uu := range append([]*Unit{u}, u.Lits()...) {
